@@ -167,6 +167,60 @@ def counter(F, R):
     R.ob('C12.counter', 'L3|drop calls dec(self.0)', ok, 'Drop for CounterGuard must dec with the stored size')
 
 
+def computed_flag_mismatch(F, cl, set_block):
+    """None when the value stored by the Cell::set at `set_block` equals is_publish || (old && is_chunk) for all inputs
+    (a chunk is never a PUBLISH); otherwise a description of the first differing input."""
+    tgt = cl.blocks[set_block]['term'].get('target')
+    se = SymEx(cl, F, max_paths=4000, loop_visits=1, stop_at=lambda bi: bi == tgt)
+    paths = [p for p in se.run() if p.end == ('stop', tgt)]
+    if not paths or se.truncated:
+        return 'cannot enumerate the paths to the store'
+    def evb(t, env):
+        k = t[0]
+        if k == 'const':
+            return int(t[1])
+        if k in ('ref', 'deref', 'cast'):
+            return evb(t[1], env)
+        if k == 'un' and t[1] == 'Not':
+            return 1 - evb(t[2], env)
+        if k == 'bin' and t[1] in ('BitAnd', 'BitOr', 'Eq', 'Ne', 'BitXor'):
+            a, b_ = evb(t[2], env), evb(t[3], env)
+            return {'BitAnd': a & b_, 'BitOr': a | b_, 'Eq': int(a == b_), 'Ne': int(a != b_), 'BitXor': a ^ b_}[t[1]]
+        if k == 'call':
+            nm = t[1] or ''
+            if nm.endswith('::is_chunk'):
+                return env['chunk']
+            if nm.endswith('::is_publish'):
+                return env['publish']
+            if nm.endswith('Cell::<T>::get') and 'publish' in term_str_v(t):
+                return env['old']
+        raise EvalError(term_str_v(t))
+    for old in (0, 1):
+        for chunk, publish in ((0, 0), (1, 0), (0, 1)):
+            env = dict(old=old, chunk=chunk, publish=publish)
+            want = publish or (old and chunk)
+            got = set()
+            for p in paths:
+                try:
+                    okp = True
+                    for t, c in p.conds:
+                        if t[0] == 'assert':
+                            continue
+                        v = evb(t, env)
+                        if (c[0] == 'eq' and v != c[1]) or (c[0] == 'ne' and v in c[1]):
+                            okp = False
+                            break
+                    if not okp:
+                        continue
+                    sets = [a for nm, a, bi in p.calls if bi == set_block]
+                    got.add(evb(sets[-1][1], env))
+                except (EvalError, IndexError, KeyError) as ex:
+                    return 'cannot evaluate the stored value (%s)' % ex
+            if got != {int(bool(want))}:
+                return 'old=%d is_chunk=%d is_publish=%d stores %s, expected %d' % (old, chunk, publish, sorted(got), int(bool(want)))
+    return None
+
+
 def gate(F, R):
     rd = F.one(r'^<inflight::InFlightServiceImpl<S> as ntex_service::Service<R>>::ready::\{closure#0\}$')
     av = [bi for bi, t in rd.calls_to(r'^inflight::Counter::available$')]
@@ -189,7 +243,7 @@ def gate(F, R):
     R.ob('C12.gate', 'ready|waits-for-capacity-unless-publish-or-available', len(edges) == 2 and bool(av) and not bad,
          'ready() can report readiness without awaiting count.available() although neither a streamed publish is in progress nor capacity is available')
     cl = F.one(r'^<inflight::InFlightServiceImpl<S> as ntex_service::Service<R>>::call::\{closure#0\}$')
-    gets = [(bi, t) for bi, t in cl.calls_to(r'^inflight::Counter::get$')]
+    gets = [(bi, t) for bi, t in cl.calls_to(r'^inflight::Counter::get$')] or [(bi, t) for bi, t in cl.calls_to(r'^inflight::CounterGuard::new$')]
     calls = [(bi, t) for bi, t in cl.calls_to(r"^ntex_service::ServiceCtx::<'a, S>::call$")]
     R.ob('C12.gate', 'call|guard-before-inner-call', len(gets) == 1 and len(calls) == 1 and cl.must_pass({gets[0][0]}, calls[0][0]), 'the in-flight guard must be taken before the inner service is called')
     if gets:
@@ -203,7 +257,7 @@ def gate(F, R):
                 drops.append(bi)
             if t['k'] == 'call' and (callee_name(t) or '').endswith('mem::drop') and op_place(t['args'][0]):
                 og = Origin(cl).of_operand(t['args'][0])
-                if any(l[0] == 'call' and l[1] == 'inflight::Counter::get' for l in og):
+                if any(l[0] == 'call' and l[1] in ('inflight::Counter::get', 'inflight::CounterGuard::new') for l in og):
                     drops.append(bi)
         # the normal-path release is after the await completed
         normal = [x for x in drops if any(edge_dominates(cl, s, t_, x) for s, t_ in ready_edges)]
@@ -236,8 +290,12 @@ def gate(F, R):
             R.ob('C12.gate', 'call|publish-flag|set(false)-never-on-chunk', ok,
                  'the "streamed publish in progress" flag can be cleared while payload chunks are still arriving: later chunks wait in ready() for capacity held by the handler that is waiting for those chunks (stall)', cl.loc(bi))
         else:
-            R.ob('C12.gate', 'call|publish-flag|constant-updates', False,
-                 'the streaming flag is overwritten with a computed value: a payload chunk (not a PUBLISH) clears it while the stream is still in progress (stall in ready())', cl.loc(bi))
+            # computed value (`flag.set(is_publish || (flag && is_chunk))`): evaluated for every combination of the old flag
+            # and the two request predicates and compared with what the two constant updates do
+            bad = computed_flag_mismatch(F, cl, bi)
+            n += 1      # one store does the work of the two conditional ones
+            R.ob('C12.gate', 'call|publish-flag|computed-update==raise-on-publish,keep-on-chunk,clear-otherwise', bad is None,
+                 'the streaming flag is overwritten with a computed value that differs from "PUBLISH raises it, a payload chunk keeps it, anything else clears it": %s' % (bad,), cl.loc(bi))
     R.floor('C12.gate', 'publish flag updates', n, 2)
     # the bypass must end with the stream: either set(true) is conditional on more than is_publish()
     # (payload incomplete) or the flag is cleared after the inner call completed / at the final chunk
